@@ -25,6 +25,7 @@ fn table() -> Vec<(&'static str, RunFn, ReplayFn)> {
         ("C14", props::c14::run as RunFn, props::c14::replay as ReplayFn),
         ("C15", props::c15::run as RunFn, props::c15::replay as ReplayFn),
         ("C16", props::c16::run as RunFn, props::c16::replay as ReplayFn),
+        ("C17", props::c17::run as RunFn, props::c17::replay as ReplayFn),
         ("C18", props::c18::run as RunFn, props::c18::replay as ReplayFn),
         ("C19", props::c19::run as RunFn, props::c19::replay as ReplayFn),
         ("C20", props::c20::run as RunFn, props::c20::replay as ReplayFn),
